@@ -31,13 +31,13 @@ CLAIMS = {
         "6 C07"),
 }
 
-CLAIMS["C11"] = ('Panic-freedom, bounded pre-allocation and loop progress of the real decoders. UNBOUNDED (Verus on extracted text, abstract reader with a ghost remaining-bytes count): read_segment_item_count / read_segment_positions, MerkleProof::read, Vec<T>::read -- no panic for any declared count and any input length, every with_capacity within 100_000 + 64*remaining bytes, results consume the stated number of bytes, the greedy Vec loop terminates. COMPLETE for inputs up to N bytes (Kani on the unmodified functions, symbolic length so every truncation offset): MerkleProof::read/from_hex, Segment::read, RangeProof/Commitment/Signature read, BinReader::read_fixed_bytes, read_multi. BOUNDED stand-ins, never counted as proved: Segment::validate and callees (mmr sizes and identifiers enumerated), util::from_hex on short strings.',
+CLAIMS["C11"] = ('Panic-freedom, bounded pre-allocation and loop progress of the real decoders. UNBOUNDED (Verus on extracted text, abstract reader with a ghost remaining-bytes count): read_segment_item_count / read_segment_positions / read_segment_items, MerkleProof::read, Vec<T>::read, the p2p list readers (Locator, PeerAddrs) -- no panic for any declared count and any input length, every with_capacity within 100_000 + 64*remaining bytes, results consume the stated number of bytes, the greedy Vec loop terminates. COMPLETE for inputs up to N bytes (Kani on the unmodified functions, symbolic length so every truncation offset): MerkleProof::read/from_hex, Segment::read, RangeProof/Commitment/Signature read, BinReader::read_fixed_bytes, read_multi. BOUNDED stand-ins, never counted as proved: Segment::validate and callees (mmr sizes and identifiers enumerated), util::from_hex on short strings.',
     VERUS_TB + KANI_TB + "Kani checks arithmetic with debug semantics and stops at a wrap (wrap sites listed in the evidence; behaviour beyond them unexplored); prunable segments with a CRoaring bitmap, zip handling, JSON bodies, Codec timing are outside.",
     'Verus loop contracts on extracted readers + Kani full-domain harnesses on the real crates + bounded harnesses for validators', "6 C11")
-CLAIMS["C01"] = ("Proof-level (Verus, unbounded) that grin's Rust code ASSEMBLES AND ENFORCES the balance equation over an abstract additive group: sum_commitments(overage) = outputs - inputs + overage*H for both signs of the overage and fails on i64::MIN; sum_kernel_excesses = (kernels, kernels + offset*G); verify_kernel_sums accepts iff the two sides are equal; Transaction::validate / TransactionBody::validate_read / verify_features / Block::validate return Ok only if every listed rule was checked with the right operands (fee as overage for a tx, minus the subsidy and total-minus-previous offset for a block, coinbase check, lock heights, NRD rule); pipe::verify_block_sums stores exactly the sums verified over (parent's stored sums + block); header overage == -60 grin, total_overage, reward (Kani, full domain). NOT decided: that libsecp256k1 implements the group, range proofs and signatures (cryptographic assumptions), and the 'after any accepted history' clause (stored sums vs full state across reorgs).",
+CLAIMS["C01"] = ("Proof-level (Verus, unbounded) that grin's Rust code ASSEMBLES AND ENFORCES the balance equation over an abstract additive group: sum_commitments(overage) = outputs - inputs + overage*H for both signs of the overage and fails on i64::MIN; sum_kernel_excesses = (kernels, kernels + offset*G); verify_kernel_sums accepts iff the two sides are equal; TransactionBody::validate batch-verifies the range proof of EVERY output against that output's own commitment and the signature of every kernel (iterator loop with invariant); Transaction::validate / TransactionBody::validate_read / verify_features / Block::validate return Ok only if every listed rule was checked with the right operands (fee as overage for a tx, minus the subsidy and total-minus-previous offset for a block, coinbase check, lock heights, NRD rule); pipe::verify_block_sums stores exactly the sums verified over (parent's stored sums + block); header overage == -60 grin, total_overage, reward (Kani, full domain). NOT decided: that libsecp256k1 implements the group, range proofs and signatures (cryptographic assumptions), and the 'after any accepted history' clause (stored sums vs full state across reorgs).",
     VERUS_TB + KANI_TB + "all commitment arithmetic is libsecp256k1 behind FFI: modelled by assumed group contracts; callees of the validators are uninterpreted predicates.",
     'Verus contracts on extracted real functions over an abstract group + conjunction-of-checks contracts; Kani for the scalar side', "6 C01")
-CLAIMS["C02"] = ("Proof-level (Verus) on the real code of (a) the unspent-leaf bitmap algebra: LeafSet add/remove change exactly one position, rewind(cutoff, rm) yields (old restricted to <= cutoff) union rm as a whole-view postcondition, discard restores the last flushed bitmap; (b) the single-input / single-output admission decision of UTXOView: validate_input returns (out, pos) only if the index maps the commitment to pos, the output MMR holds out at pos-1 and out's commitment is the input's; it fails when the commitment is not indexed or the leaf is gone; validate_output fails on an indexed, still-present duplicate. The chain-level statement over forks, reorganisations, restart and compaction is a history property and is not decided.",
+CLAIMS["C02"] = ("Proof-level (Verus) on the real code of (a) the unspent-leaf bitmap algebra: LeafSet add/remove change exactly one position, rewind(cutoff, rm) yields (old restricted to <= cutoff) union rm as a whole-view postcondition, discard restores the last flushed bitmap; (b) the single-input / single-output admission decision of UTXOView: validate_input returns (out, pos) only if the index maps the commitment to pos, the output MMR holds out at pos-1 and out's commitment is the input's; it fails when the commitment is not indexed or the leaf is gone; validate_output fails on an indexed, still-present duplicate; (c) the state changes of Extension: apply_input succeeds only on an unspent leaf and marks the same position spent in both the output and range-proof MMRs, apply_output refuses an indexed still-unspent duplicate commitment and otherwise pushes output and proof at the same position, apply_block returns Ok only if every output went through apply_output, the inputs passed validate_inputs against this extension's state, every resolved input went through apply_input and the position/spent indexes were updated for exactly those; input_pos_to_rewind. The chain-level statement over forks, reorganisations, restart and compaction is a history property and is not decided.",
     VERUS_TB + "croaring::Bitmap is C code: its operations are assumed set operations; the LMDB index and output MMR are uninterpreted functions; positions < 2^32-1; index positions >= 1.",
     'Verus contracts on extracted real functions over abstract bitmap / index / MMR views', "6 C02")
 CLAIMS["C03"] = ("One clause only: the head can move only to strictly more cumulative work -- has_more_work(h, tip) <=> h.total_difficulty > tip.total_difficulty for all u64 pairs, the derived "
@@ -57,12 +57,12 @@ CLAIMS["C06"] = ("Store level only: deductive proof (Verus) on the real AppendOn
     VERUS_TB + "File/Mmap external; the variable-size (size file) path is abstracted by T6 helpers.", "Verus contracts on extracted real functions", "6 C06")
 CLAIMS["C10"] = ("Proof-level (Kani, complete) for the fixed-size consensus types decided so far: KernelFeatures (all four variants), FeeFields, NRDRelativeHeight: for ALL 17-byte strings x ALL u32 protocol "
     "versions x both NRD settings, whatever read accepts re-encodes byte-identically (unknown tags, non-zero reserved bytes, out-of-range heights refused); decode(encode(v)) == v for all values and versions; "
-    "the hash-mode byte stream is version independent. Containers (bodies, blocks, segments, handshake) are not yet under contract.",
+    "the hash-mode byte stream is version independent; Inputs hash-mode stream version independent; read_multi on an empty count (Verus); verify_sorted_and_unique. See the evidence for the full type list (chain, p2p, pow types). Full containers (bodies, blocks, segments) are not under contract.",
     KANI_TB + "KReader/KWriter model BinReader/BinWriter over slices.", "Kani complete harnesses on the real read/write functions", "6 C10")
 CLAIMS["C12"] = ("BOUNDED stand-in only (labelled bounded, not proved): cut_through on the real code removes exactly the matched spend pairs -- per commitment value min(cin, cout) pairs are cut, the "
     "rest kept, failure iff a duplicate remains -- for all inputs with <= 3 inputs and <= 3 outputs over 8 commitment values. aggregate/deaggregate/hydration are not yet under contract.",
     KANI_TB + "bounded: slice lengths <= 3.", "Kani bounded harness with an executable multiset oracle", "6 C12")
-CLAIMS["C13"] = ('Proof-level (Verus, extracted text): with the feature on, an NRD kernel is refused iff the same excess has an index entry fewer than relative_height blocks below the block being applied, an accepted one is recorded, other variants are untouched (txhashset::apply_kernel_rules); NRDRelativeHeight accepts exactly 1..=10080 (Kani, all u64, in the C10 unit). BOUNDED stand-in (<= 3 kernels): Block::verify_kernel_lock_heights refuses iff some height-locked kernel has lock_height > block height, NRD kernels need the flag and header version >= 4, body lock_height == max. Coinbase maturity (iterator chain over LMDB lookups), per-fork maintenance of the NRD index during rewind and the pool path are not decided.',
+CLAIMS["C13"] = ('Proof-level (Verus, extracted text): with the feature on, an NRD kernel is refused iff the same excess has an index entry fewer than relative_height blocks below the block being applied, an accepted one is recorded, other variants are untouched (txhashset::apply_kernel_rules); NRDRelativeHeight accepts exactly 1..=10080 (Kani, all u64, in the C10 unit). Block::verify_kernel_lock_heights returns Ok iff no height-locked kernel has lock_height > block height, for any number of kernels (Verus loop invariant); BOUNDED stand-in (<= 3 kernels, Kani): NRD kernels need the flag and header version >= 4, body lock_height == max. Coinbase maturity (iterator chain over LMDB lookups), per-fork maintenance of the NRD index during rewind and the pool path are not decided.',
     VERUS_TB + KANI_TB + "the NRD index is an uninterpreted most-recent-entry function.",
     'Verus contract on the extracted NRD rule + Kani bounded harness for block lock heights', "6 C13")
 CLAIMS["C14"] = ("Two clauses, proof-level (Kani): for ALL input/output/kernel counts and all chain types, a body admitted by the transaction weight rule assembles with the coinbase into a block within the "
@@ -73,9 +73,9 @@ CLAIMS["C15"] = ("Arithmetic only, proof-level (Kani, all u64): chunk_start_idx(
     "Path independence of the accumulator across histories, restart and rejection of tampered output roots are not decided.",
     KANI_TB, "Kani full-domain harness on the real functions", "6 C15")
 CLAIMS["C19"] = ("Header level, proof-level (Kani): for ALL 11-byte headers x chain types x versions, wrong magic is refused having read only the magic bytes; a known type is accepted only with "
-    "msg_len <= 4 x the published per-type limit (independent table); unknown types only within the default limit; nothing within limits is refused; MsgHeader round trip. Codec buffering under "
-    "fragmentation, Headers batching and socket-level handshake refusals are not yet under contract.",
-    KANI_TB, "Kani complete harnesses on the real read/write functions", "6 C19")
+    "msg_len <= 4 x the published per-type limit (independent table); unknown types only within the default limit; nothing within limits is refused; MsgHeader round trip. Verus: negotiate_protocol_version returns the lower version; the self-connection nonce ring (next_nonce) always contains the nonce it hands out, only ever holds old nonces plus the new one, loses at most one entry and only when full, and stays below its cap. Codec buffering under "
+    "fragmentation, Headers batching and socket-level handshake refusals are not under contract.",
+    KANI_TB + VERUS_TB, "Kani complete harnesses on the real read/write functions + Verus contracts on extracted handshake functions", "6 C19")
 CLAIMS["C20"] = ("Two encodings only, proof-level (Kani, full domain): derivation path <-> identifier and serialized path are exact inverses for every depth byte and all u32 elements; parent_path / "
     "last_path_index for depths 0..=4. BIP32 derivation, commitments, range-proof create/verify/rewind and blinding arithmetic are libsecp256k1 behind FFI and are not decided.",
     KANI_TB, "Kani full-domain harnesses on the real functions", "6 C20")
